@@ -1,3 +1,192 @@
 package main
 
-func controlsImpl(prop string) (int, error) { return 0, nil }
+import (
+	"fmt"
+	"go/types"
+	"path/filepath"
+	"sync"
+
+	"golang.org/x/tools/go/packages"
+	"golang.org/x/tools/go/ssa"
+	"golang.org/x/tools/go/ssa/ssautil"
+)
+
+var (
+	ctrlOnce sync.Once
+	ctrlN    int
+	ctrlErr  error
+)
+
+// controlsImpl analyses checker/controls/ctrl with the engine primitives. It is independent of /repo.
+func controlsImpl(prop string) (int, error) {
+	ctrlOnce.Do(func() { ctrlN, ctrlErr = runAllControls() })
+	return ctrlN, ctrlErr
+}
+
+func runAllControls() (n int, err error) {
+	defer func() {
+		if r := recover(); r != nil {
+			err = fmt.Errorf("controls panicked: %v", r)
+		}
+	}()
+	dir := filepath.Join(*flagVerif, "checker", "controls")
+	cfg := &packages.Config{Mode: packages.LoadAllSyntax, Dir: dir, Env: loadEnv()}
+	pkgs, e := packages.Load(cfg, "./ctrl")
+	if e != nil || len(pkgs) != 1 || len(pkgs[0].Errors) > 0 {
+		return 0, fmt.Errorf("cannot load control package: %v %v", e, pkgs)
+	}
+	prog, spkgs := ssautil.AllPackages(pkgs, ssa.InstantiateGenerics)
+	prog.Build()
+	sp := spkgs[0]
+	p := &Prog{Fset: pkgs[0].Fset, Pkgs: pkgs, SSA: prog, SSAPkg: map[string]*ssa.Package{"ctrl/ctrl": sp}, RepoDir: dir}
+	p.Shipped = []*ssa.Package{sp}
+	// shipped funcs of the control program = the ctrl package's functions
+	for _, m := range sp.Members {
+		if f, ok := m.(*ssa.Function); ok && f.Blocks != nil {
+			p.shipFns = append(p.shipFns, WithAnon(f)...)
+		}
+		if t, ok := m.(*ssa.Type); ok {
+			for _, T := range []types.Type{t.Type(), types.NewPointer(t.Type())} {
+				ms := prog.MethodSets.MethodSet(T)
+				for i := 0; i < ms.Len(); i++ {
+					if f := prog.MethodValue(ms.At(i)); f != nil && f.Blocks != nil && f.Pkg == sp && f.Synthetic == "" {
+						dup := false
+						for _, g := range p.shipFns {
+							if g == f {
+								dup = true
+							}
+						}
+						if !dup {
+							p.shipFns = append(p.shipFns, f)
+						}
+					}
+				}
+			}
+		}
+	}
+	fn := func(name string) *ssa.Function {
+		if f, ok := sp.Members[name].(*ssa.Function); ok {
+			return f
+		}
+		panic("control function missing: " + name)
+	}
+	method := func(typ, name string) *ssa.Function {
+		T := sp.Members[typ].(*ssa.Type).Type()
+		obj, _, _ := types.LookupFieldOrMethod(types.NewPointer(T), true, sp.Pkg, name)
+		f := prog.FuncValue(obj.(*types.Func))
+		if f == nil {
+			panic("control method missing: " + typ + "." + name)
+		}
+		return f
+	}
+	expect := func(what string, got, want bool) {
+		n++
+		if got != want && err == nil {
+			err = fmt.Errorf("control %q: engine verdict %v, expected %v", what, got, want)
+		}
+	}
+	// 1. must-pass
+	rel := method("res", "release").Object().(*types.Func)
+	for _, s := range []struct {
+		f    string
+		want bool
+	}{{"goodMustPass", true}, {"badMustPass", false}} {
+		ok, _ := p.MustPassFromEntry(fn(s.f), func(i ssa.Instruction) bool { return IsCallTo(i, rel) }, nil)
+		expect("must-pass "+s.f, ok, s.want)
+	}
+	// 2. value tracking
+	get := method("mach", "get").Object().(*types.Func)
+	sink := method("mach", "sink").Object().(*types.Func)
+	for _, s := range []struct {
+		f    string
+		want uint32
+	}{{"goodTrack", 1 << 0}, {"badTrack", 1<<0 | 1<<1}} {
+		f := fn(s.f)
+		var tracked ssa.Value
+		for _, call := range CallsTo(f, get) {
+			tracked = call.(ssa.Value)
+		}
+		var seen uint32
+		vt := &ValTrack{P: p, Tracked: tracked, Consts: map[int64]uint{0: 0, 1: 1, 2: 2}}
+		vt.Visit = func(i ssa.Instruction, mask, fl uint32) (uint32, bool) {
+			if IsCallTo(i, sink) {
+				seen |= mask
+			}
+			return fl, false
+		}
+		vt.Run(f, 0)
+		expect("value-tracking "+s.f, seen == s.want, true)
+	}
+	// 3. value flow
+	mut := method("stat", "mutate").Object().(*types.Func)
+	statT := sp.Members["stat"].(*ssa.Type).Type()
+	track := func(t types.Type) bool {
+		if pt, ok := t.Underlying().(*types.Pointer); ok {
+			if types.Identical(pt.Elem(), statT) {
+				return true
+			}
+			if pp, ok := pt.Elem().Underlying().(*types.Pointer); ok && types.Identical(pp.Elem(), statT) {
+				return true
+			}
+		}
+		return false
+	}
+	fl := NewFlow(p, p.shipFns, track)
+	pred := fl.Reach([]interface{}{sp.Members["sentinel"].(*ssa.Global)})
+	for _, s := range []struct {
+		f    string
+		want bool // tainted receiver reaches mutate
+	}{{"goodFlow", false}, {"use", true}} {
+		tainted := false
+		for _, call := range CallsTo(fn(s.f), mut) {
+			if _, ok := pred[call.Common().Args[0]]; ok {
+				tainted = true
+			}
+		}
+		expect("value-flow "+s.f, tainted, s.want)
+	}
+	// 4. locksets
+	gN := sp.Members["guarded"].(*ssa.Type).Type().(*types.Named)
+	for _, s := range []struct {
+		m         string
+		excl      bool
+		wantHeld  bool
+		writeOnly bool
+	}{{"goodWrite", true, true, true}, {"badWriteUnderRLock", true, false, true}, {"badUnlockedRead", false, false, false}} {
+		f := method("guarded", s.m)
+		for _, a := range p.FieldAccesses(gN) {
+			if a.Fn != f || a.Field.Index != 1 {
+				continue
+			}
+			if s.writeOnly != (a.Kind == AccWrite) {
+				continue
+			}
+			expect("lockset "+s.m, heldAtMode(p, f, gN, 0, a.Instr, s.excl), s.wantHeld)
+		}
+	}
+	// 5. error use
+	mf := fn("mayFail").Object().(*types.Func)
+	for _, s := range []struct {
+		f    string
+		want bool
+	}{{"goodErr", true}, {"badErr", false}} {
+		for _, call := range CallsTo(fn(s.f), mf) {
+			expect("error-use "+s.f, errChecked(call, 0), s.want)
+		}
+	}
+	// 6. atomic consistency
+	cN := sp.Members["ctr"].(*ssa.Type).Type().(*types.Named)
+	atomicSeen, plainSeen := false, false
+	for _, a := range p.FieldAccesses(cN) {
+		if a.Kind == AccAtomic {
+			atomicSeen = true
+		} else if a.Kind == AccRead {
+			plainSeen = true
+		}
+	}
+	expect("atomic-consistency mixed access detected", atomicSeen && plainSeen, true)
+	if n < 12 && err == nil {
+		err = fmt.Errorf("only %d control verdicts evaluated (expected >= 12)", n)
+	}
+	return n, err
+}
